@@ -24,6 +24,13 @@ func envOr(k, d string) string {
 
 // Script renders the SMT query of one obligation.
 func (w *World) Script(vc *FnVC, o *Obligation, specFns string) string {
+	return w.ScriptForm(vc, o, specFns, false)
+}
+
+// ScriptForm: skolemized=true turns the goal's leading implications into hypotheses and
+// skolemises its leading universal quantifiers by hand; the two forms are logically the same
+// but trigger-based instantiation succeeds on different ones, so both are tried.
+func (w *World) ScriptForm(vc *FnVC, o *Obligation, specFns string, skolemized bool) string {
 	var b strings.Builder
 	b.WriteString(w.Preamble())
 	for _, h := range w.heapOrder {
@@ -35,7 +42,17 @@ func (w *World) Script(vc *FnVC, o *Obligation, specFns string) string {
 		b.WriteString(l + "\n")
 	}
 	b.WriteString("; ---- goal: " + o.Desc + "\n")
-	b.WriteString(fmt.Sprintf("(assert (not %s))\n", Implies(o.Guard, o.Goal).S))
+	if skolemized {
+		decls, asserts := NegateGoal(Implies(o.Guard, o.Goal).S)
+		for _, d := range decls {
+			b.WriteString(d + "\n")
+		}
+		for _, a := range asserts {
+			b.WriteString("(assert " + a + ")\n")
+		}
+	} else {
+		b.WriteString(fmt.Sprintf("(assert (not %s))\n", Implies(o.Guard, o.Goal).S))
+	}
 	b.WriteString("(check-sat)\n")
 	if len(vc.ParamConsts) > 0 {
 		b.WriteString("(get-value (" + strings.Join(vc.ParamConsts, " ") + "))\n")
@@ -63,6 +80,14 @@ func SolveObligation(w *World, vc *FnVC, o *Obligation, dir, specFns string, tim
 	o.Result = Solve(dir, sanitize(o.Name), script, timeout, all)
 	if o.Result.Status == "unsat" || o.Result.Status == "sat" {
 		return
+	}
+	if sk := w.ScriptForm(vc, o, specFns, true); sk != script {
+		r2 := Solve(dir, sanitize(o.Name)+"_sk", sk, timeout, all)
+		if r2.Status == "unsat" || r2.Status == "sat" {
+			r2.Secs += o.Result.Secs
+			o.Result = r2
+			return
+		}
 	}
 	r := Solve(dir, sanitize(o.Name)+"_relaxed", RelaxedScript(script), 5, false)
 	switch r.Status {
